@@ -839,8 +839,47 @@ func c17Check(ctx *Ctx, res *CaseResult, dir string, p *c17Payload, regen *Rand)
 						break
 					}
 					pkg = bv.Pkg
-					rs = GenRuleSpec(regen, bvs, pkg, "option", Pick(regen, optionRuleKinds))
+					kindOfRule := Pick(regen, optionRuleKinds)
+					if regen.Chance(2, 3) {
+						// a rule that has something to act on, given what the option takes now
+						var fit []string
+						for _, ov := range bv.Options {
+							if ov.Name != target {
+								continue
+							}
+							for _, k := range []ast.Kind{ov.ArgKind, ov.LastKind} {
+								switch k {
+								case ast.KindMap:
+									fit = append(fit, "map_to_index")
+								case ast.KindArray:
+									fit = append(fit, "array_to_append")
+								case ast.KindDisjunction:
+									fit = append(fit, "disjunction_as_options")
+								case ast.KindRef, ast.KindStruct:
+									fit = append(fit, "struct_fields_as_arguments", "struct_fields_as_options", "disjunction_as_options")
+								}
+							}
+							if ov.Bool || ov.LastBool {
+								fit = append(fit, "unfold_boolean")
+							}
+							if ov.NArgs > 0 {
+								fit = append(fit, "rename_arguments")
+							}
+						}
+						if len(fit) > 0 {
+							kindOfRule = Pick(regen, fit)
+						}
+					}
+					rs = GenRuleSpec(regen, bvs, pkg, "option", kindOfRule)
 					rs.SelKind, rs.SelA, rs.SelOpts = "by_builder", "Thing."+target, nil
+					if rs.Kind == "disjunction_as_options" {
+						// the argument that holds the union: the last one (after map_to_index it is the second)
+						for _, ov := range bv.Options {
+							if ov.Name == target && ov.NArgs > 0 {
+								rs.Index = ov.NArgs - 1
+							}
+						}
+					}
 				}
 			}
 			rs.Lang = "all"
@@ -947,7 +986,7 @@ func init() {
 				// chains of option rules on one option of a struct that has a field of every shape
 				sr := r.Side("shapes-scenario")
 				p.W = GenShapesWorkload(sr)
-				p.Chain = Pick(sr, []string{"title", "enabled", "labels", "switches", "flags", "names", "inners", "byName", "inner", "either", "scalarOrNull"})
+				p.Chain = Pick(sr, []string{"title", "enabled", "labels", "switches", "flags", "names", "inners", "byName", "inner", "either", "scalarOrNull", "eitherByName", "eitherByName", "eithers"})
 			}
 			if idx%8 == 5 {
 				// the composition scenario, its compose rule being the first step of the history
